@@ -58,9 +58,20 @@ def show(e, full=False):
     raise ValueError(k)
 
 
+def _has_var(e):
+    return e[0] == "var" or any(_has_var(a) for a in e[1:] if isinstance(a, tuple))
+
+
 def exact_fragment(e):
     if e[0] in ("exp", "log"):
         return False
+    if e[0] == "/" or (e[0] == "^" and not isinstance(e[2], tuple) and e[2] < 0):
+        den = e[2] if e[0] == "/" else e[1]
+        if not _has_var(den):
+            # a constant reciprocal is folded by sympy in doubles (1/(0.5 - 2), 3^-1): exact only for powers of two
+            v = den[1] if den[0] == "num" else None
+            if v is None or v == 0 or (abs(v).numerator & (abs(v).numerator - 1)) or (abs(v).denominator & (abs(v).denominator - 1)):
+                return False
     if e[0] == "^" and isinstance(e[2], Fraction) and e[2].denominator != 1:
         return False
     return all(exact_fragment(a) for a in e[1:] if isinstance(a, tuple))
@@ -248,16 +259,25 @@ def formula_job(interp, c, case):
         env = dict(sp)
         env.update(pa)
         env.update(t=t, volume=(V if mode == "volume" else 1))
-        if mode == "plain":
-            got = term.evaluate(ptr(interp, sv.copy()), ptr(interp, pv.copy()), t)
-        else:
-            got = term.volume_evaluate(ptr(interp, sv.copy()), ptr(interp, pv.copy()), V, t)
-        # layer 2: value of the sympy tree, at the points where it is finite
+        try:
+            if mode == "plain":
+                got = term.evaluate(ptr(interp, sv.copy()), ptr(interp, pv.copy()), t)
+            else:
+                got = term.volume_evaluate(ptr(interp, sv.copy()), ptr(interp, pv.copy()), V, t)
+        except ZeroDivisionError:
+            got = float("inf")          # C: pow(0, negative) = inf; only acceptable outside the formula's finite domain
+        # layer 2: value of the sympy tree, at the points where it is finite (a generated formula may be finite nowhere,
+        # e.g. log(-Heaviside(S)): nothing is claimed about it)
+        c.vacuous_ok = True
         sympy_domain(tree, env, c.assume)
         want2 = sympy_value(tree, env)
         # Heaviside(0) is excluded from the claim
         for h in tree.atoms(sympy.Heaviside):
             c.assume(s_not(sympy_value(h.args[0], env) == 0))
+        if isinstance(got, float) and (got != got or got in (float("inf"), float("-inf"))):
+            _rep(c, False, "'%s' [%s]: evaluates to %r at a point of its finite domain" % (text, mode, got), "formula non-finite inside its domain",
+                 dict(rp, mode=mode), syms)
+            continue
         _rep(c, got == want2, "'%s' [%s]: the Term tree evaluates to the value of the parsed expression tree" % (text, mode),
              "translation sympy->Term", dict(rp, mode=mode), syms)
         if exact_fragment(e):
